@@ -654,10 +654,114 @@ Section StepN.
           -- intros g. specialize (H3 E3). fibN2 Hfib Ht Hh Hh' g.
         * match goal with |- context [finish ?a ?b ?c ?d] => destruct (finish a b c d) as [e1 T1] eqn:EX end.
           cbn [fst]. replace T1 with (snd (finish t (thr s t) (cur (thr s t)) (Zn (cur (thr s t))))) by (rewrite EX; reflexivity).
-          apply inv_finish_only; auto. right; auto.
+          apply inv_finish_only; auto; try (right; auto).
       + match goal with |- context [finish ?a ?b ?c ?d] => destruct (finish a b c d) as [e1 T1] eqn:EX end.
         cbn [fst]. replace T1 with (snd (finish t (thr s t) (cur (thr s t)) (Zn (cur (thr s t))))) by (rewrite EX; reflexivity).
-        apply inv_finish_only; auto. left; exact L.
-    - cbn [fst]. apply inv_thr_only; auto; try discriminate. unfold lokN; cbn. exact L.
+        apply inv_finish_only; auto; try (left; exact L).
+    - cbn [fst]. apply inv_thr_only; auto; try discriminate.
+  Qed.
+
+  Lemma stepN_PN7 k : pc (thr s t) = PN7 k -> InvN N own (fst (step s t)).
+  Proof.
+    intros Hpc. unfold step. rewrite Hpc.
+    pose proof Hloc as L. unfold lokN in L. rewrite Hpc in L.
+    assert (Hn5 : forall k0 tmp, pc (thr s t) <> PN5 k0 tmp) by (rewrite Hpc; discriminate).
+    assert (Hh : held (thr s t) = opt (cur (thr s t))) by (unfold held; rewrite Hpc; reflexivity).
+    pose proof own_dq as (D1 & D2 & D3).
+    destruct (dq s (sfrom s t)) as [|x rest] eqn:EF.
+    - cbn [fst]. apply inv_thr_only; auto; try discriminate.
+    - cbn [fst].
+      assert (Hx2 : (2 <= fstt s x)%Z).
+      { apply (n_queued N s x (Hfib x)). pose proof (Qcn_term (dq s) (nthr s) (sfrom s t) x D1) as Hq.
+        rewrite EF in Hq. cbn [cnt] in Hq. rewrite Nat.eqb_refl in Hq. lia. }
+      mkN N own s t I0 Ht; [reflexivity|exact Hts|reflexivity| |exact Hfrom| | |exact Hprog|].
+      + oth_tac I0 Ht ltac:(fun u Hne Hu => apply (keeps_same N own s u (thr s u)); apply (m_loc N own s I0 u Hu)).
+      + intros _. apply Hto'; auto.
+      + intros g. fibN Hfib Ht Hh g; rewrite EF in *; cbn [cnt] in *; neqN; lia.
+      + unfold lokN; cbn. split; auto.
+  Qed.
+
+  Lemma stepN_PN8 k x : pc (thr s t) = PN8 k x -> InvN N own (fst (step s t)).
+  Proof.
+    intros Hpc. unfold step. rewrite Hpc.
+    pose proof Hloc as L. unfold lokN in L. rewrite Hpc in L. destruct L as (Hk & Hx).
+    assert (Hn5 : forall k0 tmp, pc (thr s t) <> PN5 k0 tmp) by (rewrite Hpc; discriminate).
+    assert (Hh : held (thr s t) = x :: opt (cur (thr s t))) by (unfold held; rewrite Hpc; reflexivity).
+    pose proof (n_state N s x (Hfib x)) as Hs. pose proof (n_range N s x (Hfib x)) as Hr.
+    destruct (Z.eqb_spec (fstt s x) 5) as [E5|E5].
+    - cbn [fst]. apply inv_thr_only; auto; try discriminate. unfold lokN; cbn. auto.
+    - destruct x as [|x']; [lia|].
+      unfold next_ret. destruct k; try contradiction; cbn [fst];
+        (apply inv_thr_only; auto; try discriminate; unfold lokN, kokN, hok in *; cbn; intuition lia).
+  Qed.
+
+  Lemma stepN_PN9 k x : pc (thr s t) = PN9 k x -> InvN N own (fst (step s t)).
+  Proof.
+    intros Hpc. unfold step. rewrite Hpc. cbn [fst].
+    pose proof Hloc as L. unfold lokN in L. rewrite Hpc in L. destruct L as (Hk & Hx).
+    assert (Hto : sto s t = 4 * t + 3 - sfrom s t) by (apply Hto'; rewrite Hpc; discriminate).
+    rewrite Hto. pose proof own_dq as (D1 & D2 & D3).
+    assert (Hh : held (thr s t) = x :: opt (cur (thr s t))) by (unfold held; rewrite Hpc; reflexivity).
+    mkN N own s t I0 Ht; [reflexivity|exact Hts|reflexivity| |exact Hfrom| | |exact Hprog|].
+    - oth_tac I0 Ht ltac:(fun u Hne Hu => apply (keeps_same N own s u (thr s u)); apply (m_loc N own s I0 u Hu)).
+    - intros _. exact Hto.
+    - intros g. fibN Hfib Ht Hh g.
+    - unfold lokN; cbn. exact Hk.
+  Qed.
+
+  Lemma stepN_PY2 nf : pc (thr s t) = PY2 nf -> InvN N own (fst (step s t)).
+  Proof.
+    intros Hpc. unfold step. rewrite Hpc.
+    pose proof Hloc as L. unfold lokN in L. rewrite Hpc in L. destruct L as (Hc & H13 & Hnf).
+    assert (Hn5 : forall k0 tmp, pc (thr s t) <> PN5 k0 tmp) by (rewrite Hpc; discriminate).
+    assert (Hh : held (thr s t) = nf :: opt (cur (thr s t))) by (unfold held; rewrite Hpc; reflexivity).
+    destruct (Z.eqb_spec (fstt s (cur (thr s t))) 1); cbn [fst];
+      (apply inv_thr_only; auto; try discriminate; unfold lokN; cbn; intuition lia).
+  Qed.
+
+  Lemma cur_held : cur (thr s t) <> 0 -> In (cur (thr s t)) (held (thr s t)).
+  Proof.
+    intros Hc. unfold held. destruct (cur (thr s t)) eqn:Ec; [congruence|].
+    destruct (pc (thr s t)); try destruct k; cbn [opt In]; auto.
+  Qed.
+
+  Lemma stepN_PY3 nf : pc (thr s t) = PY3 nf -> InvN N own (fst (step s t)).
+  Proof.
+    intros Hpc. unfold step. rewrite Hpc. cbn [fst].
+    pose proof Hloc as L. unfold lokN in L. rewrite Hpc in L. destruct L as (Hc & H13 & Hnf).
+    apply inv_write_held; auto; try (rewrite Hpc; discriminate); try discriminate.
+    - apply cur_held; auto.
+    - unfold held. rewrite Hpc. reflexivity.
+    - unfold lokN, hok in *; cbn. rewrite upd_same. split; auto. split; [|right; auto].
+      unfold upd. destruct (Nat.eqb nf (cur (thr s t))); auto.
+  Qed.
+
+  Lemma held_distinct a b l : held (thr s t) = a :: b :: l -> a <> b.
+  Proof.
+    intros Hh E. pose proof (Hcn_term (thr s) (nthr s) t a Ht) as H. pose proof (n_once N s a (Hfib a)).
+    rewrite Hh in H. cbn [cnt] in H. rewrite <- E, !Nat.eqb_refl in H. lia.
+  Qed.
+
+  Lemma stepN_PY4 nf ts : pc (thr s t) = PY4 nf ts -> InvN N own (fst (step s t)).
+  Proof.
+    intros Hpc. unfold step. rewrite Hpc.
+    pose proof Hloc as L. unfold lokN in L. rewrite Hpc in L. destruct L as (Hc & Hnf & Hts0).
+    assert (Hn5 : forall k0 tmp, pc (thr s t) <> PN5 k0 tmp) by (rewrite Hpc; discriminate).
+    assert (Hh : held (thr s t) = nf :: opt (cur (thr s t))) by (unfold held; rewrite Hpc; reflexivity).
+    assert (Hne : nf <> cur (thr s t)).
+    { destruct (cur (thr s t)) eqn:Ec; [congruence|]. apply (held_distinct _ _ [] Hh). }
+    assert (Hin : In nf (held (thr s t))) by (rewrite Hh; left; reflexivity).
+    destruct ts as [|ts'].
+    - destruct Hts0 as [[_ H3]|[Habs _]]; [|congruence].
+      rewrite fst_let_finish.
+      assert (Hr : runN (set_wq (set_fs s nf 1) (cur (thr s t)) true) nf) by (right; left; cbn; apply upd_same).
+      destruct (finish_specN N own _ t (thr s t) nf (Zn nf) Hprog Hr) as (Hc' & Hp' & Hl & Hh' & Hs).
+      mkN N own s t I0 Ht; [reflexivity|exact Hts|reflexivity| |exact Hfrom| | |exact Hp'|exact Hl].
+      + oth_tac I0 Ht ltac:(fun u Hne' Hu => apply (keeps_held N own s t u nf 1%Z I0 Ht Hu Hne' Hin); lia).
+      + intros _. apply Hto'; auto.
+      + intros g. unfold hok in Hnf. fibN2 Hfib Ht Hh Hh' g.
+    - destruct Hts0 as [[Habs _]|[Hts1 H2]]; [discriminate|]. cbn [fst].
+      apply inv_write_held; auto; try discriminate.
+      unfold lokN; cbn. rewrite upd_same, Hts1. rewrite upd_other by auto. repeat split; auto; lia.
   Qed.
 End StepN.
